@@ -317,12 +317,51 @@ inductive Code.Coord.Denotes (sel : List Nat) (n : Nat) : Coord → Nat → Prop
   | flipT (t e i) : Denotes sel n t i → Denotes sel n (.flip t e) i
   | flipE (t e i) : Denotes sel n e i → Denotes sel n (.flip t e) i
 
-/-- the configuration of a run -/
-structure Conf.Env where
-  pCross : Rat
-  pMutation : Rat
-  wLo : Rat
-  wHi : Rat
-  brood : Nat
+/-- the configuration of a run (`environment`) -/
+structure RunEnv where
+  pMutationPositive : Bool      -- env.p_mutation > 0
+  brood : Nat                   -- env.brood_recombination
+
+/-- zero or more `mutation` calls on an individual; `n` = sum of the returned counts
+    (the signature-repulsion loop of `recombination::base::run`) -/
+inductive MutStar (ss : List Slot) : Ga → Nat → Ga → Prop
+  | refl (x) : MutStar ss x 0 x
+  | step (x y n flip ch u) : MutStar ss x n y →
+      MutStar ss x (n + (gaMutate ss flip ch u y).2) (gaMutate ss flip ch u y).1
+
+/-- what a configuration member named by the call site contributes -/
+def Code.Conf.isPMutation : Conf → Bool
+  | .pMutation => true
+  | _ => false
+
+/-- `recombination::base<i_ga>::run(parent)` following the EXTRACTED call site `code`: which individuals are crossed,
+    how often (`brood_recombination`), when the repulsion mutations may run, what is copied otherwise.
+    `Run code ss env pop sel off dcross dmut`: the call may return `off` after adding `dcross` / `dmut` to the
+    summary counters. -/
+inductive Code.GaRunCode.Run (code : GaRunCode) (ss : List Slot) (env : RunEnv) (pop : List Ga) (sel : List Nat) :
+    Ga → Nat → Nat → Prop
+  | cross (i1 i2 : Nat) (p1 p2 : Ga) (cs : List (Ga × Nat)) (off : Ga × Nat) :
+      code.lhs.Denotes sel pop.length i1 → code.rhs.Denotes sel pop.length i2 →
+      pop[i1]? = some p1 → pop[i2]? = some p2 →
+      code.broodCount = .brood → cs.length = max 1 env.brood →
+      (∀ c ∈ cs, ∃ u1 u2, MutStar ss (gaCrossover u1 u2 p1 p2) c.2 c.1 ∧
+        ((code.mutGuardPositive.isPMutation && env.pMutationPositive) = false → c.2 = 0)) →
+      off ∈ cs →
+      Run code ss env pop sel off.1 cs.length (cs.map (·.2)).sum
+  | copy (i : Nat) (p : Ga) (flip : Nat → Bool) (ch u : Nat → Nat) :
+      code.elseCopy.Denotes sel pop.length i → pop[i]? = some p →
+      Run code ss env pop sel (gaMutate ss flip ch u p).1 0 (gaMutate ss flip ch u p).2
+
+/-- `recombination::de<i_de>::run(parent)` following the extracted call site: the offspring is the trial vector of
+    the target `pop[target]` with donors `pop[a]`, `pop[b]`, base `pop[c]`, a weight satisfying `inW` when – and only
+    when – the call passes the configured `env.de.weight` -/
+inductive Code.DeRunCode.Run {F} (code : DeRunCode) (A : Arith F) (inW : F → Prop) (pop : List (De F))
+    (sel : List Nat) : De F → Prop
+  | mk (it ia ib ic : Nat) (t a b c : De F) (rf : F) (flip : Nat → Bool) :
+      code.target.Denotes sel pop.length it → code.a.Denotes sel pop.length ia →
+      code.b.Denotes sel pop.length ib → code.c.Denotes sel pop.length ic →
+      pop[it]? = some t → pop[ia]? = some a → pop[ib]? = some b → pop[ic]? = some c →
+      code.f = .deWeight → code.p = .pCross → inW rf →
+      Run code A inW pop sel (deCrossover A rf flip t a b c)
 
 end Vita.C17
